@@ -246,13 +246,13 @@ package parser
 //@   requires walkWF(n)
 //@   ensures @preorder: trace == Pre(n, Seq_Node.empty)
 //@ loop 1
-//@   invariant PreS(stack, trace) == Pre(n, Seq_Node.empty)
+//@   invariant PreS(stack, trace) == Pre(old(n), Seq_Node.empty)
 //@   invariant walkWFL(stack, len(stack))
 //@   decreases stackSize(stack)
 //@ loop 2
 //@   invariant -1 <= i && i < len(n_QualifiedIdent.Parts) && 0 <= len(stack) - (len(n_QualifiedIdent.Parts) - 1 - i)
 //@   invariant forallS(t, "Seq_Node", PreS(stack, t) == PreS(stack[0:len(stack) - (len(n_QualifiedIdent.Parts) - 1 - i)], PKr(n_QualifiedIdent.Parts, i + 1, t)))
-//@   invariant PreS(stack[0:len(stack) - (len(n_QualifiedIdent.Parts) - 1 - i)], PKr(n_QualifiedIdent.Parts, 0, trace)) == Pre(n, Seq_Node.empty)
+//@   invariant PreS(stack[0:len(stack) - (len(n_QualifiedIdent.Parts) - 1 - i)], PKr(n_QualifiedIdent.Parts, 0, trace)) == Pre(old(n), Seq_Node.empty)
 //@   invariant walkWFL(stack, len(stack)) && walkWFL(n_QualifiedIdent.Parts, len(n_QualifiedIdent.Parts))
 //@   invariant stackSize(stack) == stackSize(stack[0:len(stack) - (len(n_QualifiedIdent.Parts) - 1 - i)]) + lsizeFrom(n_QualifiedIdent.Parts, i + 1)
 //@   invariant stackSize(stack[0:len(stack) - (len(n_QualifiedIdent.Parts) - 1 - i)]) + lsizeFrom(n_QualifiedIdent.Parts, 0) + 0 < variant(1)
@@ -260,7 +260,7 @@ package parser
 //@ loop 3
 //@   invariant -1 <= i && i < len(n_TabularExpr.Operators) && 0 <= len(stack) - (len(n_TabularExpr.Operators) - 1 - i)
 //@   invariant forallS(t, "Seq_Node", PreS(stack, t) == PreS(stack[0:len(stack) - (len(n_TabularExpr.Operators) - 1 - i)], PKr(n_TabularExpr.Operators, i + 1, t)))
-//@   invariant PreS(stack[0:len(stack) - (len(n_TabularExpr.Operators) - 1 - i)], PKr(n_TabularExpr.Operators, 0, Pre(n_TabularExpr.Source, trace))) == Pre(n, Seq_Node.empty)
+//@   invariant PreS(stack[0:len(stack) - (len(n_TabularExpr.Operators) - 1 - i)], PKr(n_TabularExpr.Operators, 0, Pre(n_TabularExpr.Source, trace))) == Pre(old(n), Seq_Node.empty)
 //@   invariant walkWFL(stack, len(stack)) && walkWFL(n_TabularExpr.Operators, len(n_TabularExpr.Operators))
 //@   invariant stackSize(stack) == stackSize(stack[0:len(stack) - (len(n_TabularExpr.Operators) - 1 - i)]) + lsizeFrom(n_TabularExpr.Operators, i + 1)
 //@   invariant stackSize(stack[0:len(stack) - (len(n_TabularExpr.Operators) - 1 - i)]) + lsizeFrom(n_TabularExpr.Operators, 0) + size(n_TabularExpr.Source) < variant(1)
@@ -268,7 +268,7 @@ package parser
 //@ loop 4
 //@   invariant -1 <= i && i < len(n_SortOperator.Terms) && 0 <= len(stack) - (len(n_SortOperator.Terms) - 1 - i)
 //@   invariant forallS(t, "Seq_Node", PreS(stack, t) == PreS(stack[0:len(stack) - (len(n_SortOperator.Terms) - 1 - i)], PKr(n_SortOperator.Terms, i + 1, t)))
-//@   invariant PreS(stack[0:len(stack) - (len(n_SortOperator.Terms) - 1 - i)], PKr(n_SortOperator.Terms, 0, trace)) == Pre(n, Seq_Node.empty)
+//@   invariant PreS(stack[0:len(stack) - (len(n_SortOperator.Terms) - 1 - i)], PKr(n_SortOperator.Terms, 0, trace)) == Pre(old(n), Seq_Node.empty)
 //@   invariant walkWFL(stack, len(stack)) && walkWFL(n_SortOperator.Terms, len(n_SortOperator.Terms))
 //@   invariant stackSize(stack) == stackSize(stack[0:len(stack) - (len(n_SortOperator.Terms) - 1 - i)]) + lsizeFrom(n_SortOperator.Terms, i + 1)
 //@   invariant stackSize(stack[0:len(stack) - (len(n_SortOperator.Terms) - 1 - i)]) + lsizeFrom(n_SortOperator.Terms, 0) + 0 < variant(1)
@@ -276,7 +276,7 @@ package parser
 //@ loop 5
 //@   invariant -1 <= i && i < len(n_ProjectOperator.Cols) && 0 <= len(stack) - (len(n_ProjectOperator.Cols) - 1 - i)
 //@   invariant forallS(t, "Seq_Node", PreS(stack, t) == PreS(stack[0:len(stack) - (len(n_ProjectOperator.Cols) - 1 - i)], PKr(n_ProjectOperator.Cols, i + 1, t)))
-//@   invariant PreS(stack[0:len(stack) - (len(n_ProjectOperator.Cols) - 1 - i)], PKr(n_ProjectOperator.Cols, 0, trace)) == Pre(n, Seq_Node.empty)
+//@   invariant PreS(stack[0:len(stack) - (len(n_ProjectOperator.Cols) - 1 - i)], PKr(n_ProjectOperator.Cols, 0, trace)) == Pre(old(n), Seq_Node.empty)
 //@   invariant walkWFL(stack, len(stack)) && walkWFL(n_ProjectOperator.Cols, len(n_ProjectOperator.Cols))
 //@   invariant stackSize(stack) == stackSize(stack[0:len(stack) - (len(n_ProjectOperator.Cols) - 1 - i)]) + lsizeFrom(n_ProjectOperator.Cols, i + 1)
 //@   invariant stackSize(stack[0:len(stack) - (len(n_ProjectOperator.Cols) - 1 - i)]) + lsizeFrom(n_ProjectOperator.Cols, 0) + 0 < variant(1)
@@ -284,7 +284,7 @@ package parser
 //@ loop 6
 //@   invariant -1 <= i && i < len(n_ExtendOperator.Cols) && 0 <= len(stack) - (len(n_ExtendOperator.Cols) - 1 - i)
 //@   invariant forallS(t, "Seq_Node", PreS(stack, t) == PreS(stack[0:len(stack) - (len(n_ExtendOperator.Cols) - 1 - i)], PKr(n_ExtendOperator.Cols, i + 1, t)))
-//@   invariant PreS(stack[0:len(stack) - (len(n_ExtendOperator.Cols) - 1 - i)], PKr(n_ExtendOperator.Cols, 0, trace)) == Pre(n, Seq_Node.empty)
+//@   invariant PreS(stack[0:len(stack) - (len(n_ExtendOperator.Cols) - 1 - i)], PKr(n_ExtendOperator.Cols, 0, trace)) == Pre(old(n), Seq_Node.empty)
 //@   invariant walkWFL(stack, len(stack)) && walkWFL(n_ExtendOperator.Cols, len(n_ExtendOperator.Cols))
 //@   invariant stackSize(stack) == stackSize(stack[0:len(stack) - (len(n_ExtendOperator.Cols) - 1 - i)]) + lsizeFrom(n_ExtendOperator.Cols, i + 1)
 //@   invariant stackSize(stack[0:len(stack) - (len(n_ExtendOperator.Cols) - 1 - i)]) + lsizeFrom(n_ExtendOperator.Cols, 0) + 0 < variant(1)
@@ -292,7 +292,7 @@ package parser
 //@ loop 7
 //@   invariant -1 <= i && i < len(n_SummarizeOperator.GroupBy) && 0 <= len(stack) - (len(n_SummarizeOperator.GroupBy) - 1 - i)
 //@   invariant forallS(t, "Seq_Node", PreS(stack, t) == PreS(stack[0:len(stack) - (len(n_SummarizeOperator.GroupBy) - 1 - i)], PKr(n_SummarizeOperator.GroupBy, i + 1, t)))
-//@   invariant PreS(stack[0:len(stack) - (len(n_SummarizeOperator.GroupBy) - 1 - i)], PKr(n_SummarizeOperator.GroupBy, 0, PKr(n_SummarizeOperator.Cols, 0, trace))) == Pre(n, Seq_Node.empty)
+//@   invariant PreS(stack[0:len(stack) - (len(n_SummarizeOperator.GroupBy) - 1 - i)], PKr(n_SummarizeOperator.GroupBy, 0, PKr(n_SummarizeOperator.Cols, 0, trace))) == Pre(old(n), Seq_Node.empty)
 //@   invariant walkWFL(stack, len(stack)) && walkWFL(n_SummarizeOperator.GroupBy, len(n_SummarizeOperator.GroupBy))
 //@   invariant stackSize(stack) == stackSize(stack[0:len(stack) - (len(n_SummarizeOperator.GroupBy) - 1 - i)]) + lsizeFrom(n_SummarizeOperator.GroupBy, i + 1)
 //@   invariant stackSize(stack[0:len(stack) - (len(n_SummarizeOperator.GroupBy) - 1 - i)]) + lsizeFrom(n_SummarizeOperator.GroupBy, 0) + lsizeFrom(n_SummarizeOperator.Cols, 0) < variant(1)
@@ -300,7 +300,7 @@ package parser
 //@ loop 8
 //@   invariant -1 <= i && i < len(n_SummarizeOperator.Cols) && 0 <= len(stack) - (len(n_SummarizeOperator.Cols) - 1 - i)
 //@   invariant forallS(t, "Seq_Node", PreS(stack, t) == PreS(stack[0:len(stack) - (len(n_SummarizeOperator.Cols) - 1 - i)], PKr(n_SummarizeOperator.Cols, i + 1, t)))
-//@   invariant PreS(stack[0:len(stack) - (len(n_SummarizeOperator.Cols) - 1 - i)], PKr(n_SummarizeOperator.Cols, 0, trace)) == Pre(n, Seq_Node.empty)
+//@   invariant PreS(stack[0:len(stack) - (len(n_SummarizeOperator.Cols) - 1 - i)], PKr(n_SummarizeOperator.Cols, 0, trace)) == Pre(old(n), Seq_Node.empty)
 //@   invariant walkWFL(stack, len(stack)) && walkWFL(n_SummarizeOperator.Cols, len(n_SummarizeOperator.Cols))
 //@   invariant stackSize(stack) == stackSize(stack[0:len(stack) - (len(n_SummarizeOperator.Cols) - 1 - i)]) + lsizeFrom(n_SummarizeOperator.Cols, i + 1)
 //@   invariant stackSize(stack[0:len(stack) - (len(n_SummarizeOperator.Cols) - 1 - i)]) + lsizeFrom(n_SummarizeOperator.Cols, 0) + 0 < variant(1)
@@ -308,7 +308,7 @@ package parser
 //@ loop 9
 //@   invariant -1 <= i && i < len(n_JoinOperator.Conditions) && 0 <= len(stack) - (len(n_JoinOperator.Conditions) - 1 - i)
 //@   invariant forallS(t, "Seq_Node", PreS(stack, t) == PreS(stack[0:len(stack) - (len(n_JoinOperator.Conditions) - 1 - i)], PKr(n_JoinOperator.Conditions, i + 1, t)))
-//@   invariant PreS(stack[0:len(stack) - (len(n_JoinOperator.Conditions) - 1 - i)], PKr(n_JoinOperator.Conditions, 0, Pre(n_JoinOperator.Right, trace))) == Pre(n, Seq_Node.empty)
+//@   invariant PreS(stack[0:len(stack) - (len(n_JoinOperator.Conditions) - 1 - i)], PKr(n_JoinOperator.Conditions, 0, Pre(n_JoinOperator.Right, trace))) == Pre(old(n), Seq_Node.empty)
 //@   invariant walkWFL(stack, len(stack)) && walkWFL(n_JoinOperator.Conditions, len(n_JoinOperator.Conditions))
 //@   invariant stackSize(stack) == stackSize(stack[0:len(stack) - (len(n_JoinOperator.Conditions) - 1 - i)]) + lsizeFrom(n_JoinOperator.Conditions, i + 1)
 //@   invariant stackSize(stack[0:len(stack) - (len(n_JoinOperator.Conditions) - 1 - i)]) + lsizeFrom(n_JoinOperator.Conditions, 0) + size(n_JoinOperator.Right) < variant(1)
@@ -316,7 +316,7 @@ package parser
 //@ loop 10
 //@   invariant -1 <= i && i < len(n_InExpr.Vals) && 0 <= len(stack) - (len(n_InExpr.Vals) - 1 - i)
 //@   invariant forallS(t, "Seq_Node", PreS(stack, t) == PreS(stack[0:len(stack) - (len(n_InExpr.Vals) - 1 - i)], PKr(n_InExpr.Vals, i + 1, t)))
-//@   invariant PreS(stack[0:len(stack) - (len(n_InExpr.Vals) - 1 - i)], PKr(n_InExpr.Vals, 0, Pre(n_InExpr.X, trace))) == Pre(n, Seq_Node.empty)
+//@   invariant PreS(stack[0:len(stack) - (len(n_InExpr.Vals) - 1 - i)], PKr(n_InExpr.Vals, 0, Pre(n_InExpr.X, trace))) == Pre(old(n), Seq_Node.empty)
 //@   invariant walkWFL(stack, len(stack)) && walkWFL(n_InExpr.Vals, len(n_InExpr.Vals))
 //@   invariant stackSize(stack) == stackSize(stack[0:len(stack) - (len(n_InExpr.Vals) - 1 - i)]) + lsizeFrom(n_InExpr.Vals, i + 1)
 //@   invariant stackSize(stack[0:len(stack) - (len(n_InExpr.Vals) - 1 - i)]) + lsizeFrom(n_InExpr.Vals, 0) + size(n_InExpr.X) < variant(1)
@@ -324,7 +324,7 @@ package parser
 //@ loop 11
 //@   invariant -1 <= i && i < len(n_CallExpr.Args) && 0 <= len(stack) - (len(n_CallExpr.Args) - 1 - i)
 //@   invariant forallS(t, "Seq_Node", PreS(stack, t) == PreS(stack[0:len(stack) - (len(n_CallExpr.Args) - 1 - i)], PKr(n_CallExpr.Args, i + 1, t)))
-//@   invariant PreS(stack[0:len(stack) - (len(n_CallExpr.Args) - 1 - i)], PKr(n_CallExpr.Args, 0, trace)) == Pre(n, Seq_Node.empty)
+//@   invariant PreS(stack[0:len(stack) - (len(n_CallExpr.Args) - 1 - i)], PKr(n_CallExpr.Args, 0, trace)) == Pre(old(n), Seq_Node.empty)
 //@   invariant walkWFL(stack, len(stack)) && walkWFL(n_CallExpr.Args, len(n_CallExpr.Args))
 //@   invariant stackSize(stack) == stackSize(stack[0:len(stack) - (len(n_CallExpr.Args) - 1 - i)]) + lsizeFrom(n_CallExpr.Args, i + 1)
 //@   invariant stackSize(stack[0:len(stack) - (len(n_CallExpr.Args) - 1 - i)]) + lsizeFrom(n_CallExpr.Args, 0) + 0 < variant(1)
@@ -332,7 +332,7 @@ package parser
 //@ loop 12
 //@   invariant -1 <= i && i < len(n_RenderOperator.Props) && 0 <= len(stack) - pcountFrom(n_RenderOperator.Props, i + 1)
 //@   invariant forallS(t, "Seq_Node", PreS(stack, t) == PreS(stack[0:len(stack) - pcountFrom(n_RenderOperator.Props, i + 1)], PKprops(n_RenderOperator.Props, i + 1, t)))
-//@   invariant PreS(stack[0:len(stack) - pcountFrom(n_RenderOperator.Props, i + 1)], PKprops(n_RenderOperator.Props, 0, trace)) == Pre(n, Seq_Node.empty)
+//@   invariant PreS(stack[0:len(stack) - pcountFrom(n_RenderOperator.Props, i + 1)], PKprops(n_RenderOperator.Props, 0, trace)) == Pre(old(n), Seq_Node.empty)
 //@   invariant walkWFL(stack, len(stack)) && walkWFprops(n_RenderOperator.Props, len(n_RenderOperator.Props))
 //@   invariant stackSize(stack) == stackSize(stack[0:len(stack) - pcountFrom(n_RenderOperator.Props, i + 1)]) + psizeFrom(n_RenderOperator.Props, i + 1)
 //@   invariant stackSize(stack[0:len(stack) - pcountFrom(n_RenderOperator.Props, i + 1)]) + psizeFrom(n_RenderOperator.Props, 0) + 0 < variant(1)
